@@ -267,6 +267,7 @@ func (u *oUnit) emitStructs() string {
 
 func writeObjUnit(u *oUnit, out string) (nfailed int) {
 	loadDecls()
+	covObjUnit(u) // FX14: coverage.go
 	oShapes = map[string]oshape{}
 	oEnvFns, oEnvIdx = nil, map[string]int{}
 	var failed, all, dead []string
